@@ -6,7 +6,8 @@
    casadi (hasattr(MX, method)) on every run and discharges the side condition by vm_compute
    (run/C11/Tie_C11.v).  F (elementary functions) is arbitrary. *)
 From Coq Require Import ZArith QArith Qcanon List Bool Lia.
-From PV Require Import Model.C11_residual Proofs.C11_residual.
+From PV Require Import Model.C11_residual Proofs.C11_residual Model.C11_functions Proofs.C11_functions
+  Model.C11_arrays Proofs.C11_arrays Model.C11_cases.
 Import ListNotations.
 Open Scope Qc_scope.
 
@@ -96,6 +97,62 @@ Proof.
   exists 1%Z, 2%Z, 5%Z. destruct old_range3_differs as [-> ->]. intro H. discriminate H.
 Qed.
 Print Assumptions C11_three_part_range_old_reading_refuted.
+
+(* User functions with algorithm sections.  For a function body made of assignment and
+   for-statements (loop bodies = lists of assignments that may read each other's results), if the
+   generator produces the assignment list l (loops unrolled iteration-major, index bound per
+   iteration: `unroll`) then after get_function's sequential substitution the symbolic value of
+   EVERY function variable, evaluated at the input point, is the value the Modelica sequential
+   execution `exec` leaves in that variable.
+   _partial: if-statements (SIf) are in the executable model and in the correspondence, but not
+   in this theorem (stmt_ok excludes them); the call site (lhs_k - out_k) is in the model only. *)
+Theorem C11_function_partial (F : positive -> Qc -> Qc) (T : table) (body : list stmt) (l : list cassign)
+        (rm rm' : menv) (rc : cenv) :
+  table_ok T = true -> Forall stmt_ok body -> init_rel rm rc ->
+  tr_stmts T body = Ok l -> exec F body rm = Some rm' ->
+  forall x, exists q, m_sc rm' x = VNum q /\ ca_eval F (apply_assigns l sigma0 x) rc = Some q.
+Proof. intros HT Hok Hi Htr Hex. exact (function_sound F T HT body l rm rc rm' Hok Hi Htr Hex). Qed.
+Print Assumptions C11_function_partial.
+
+(* the order of the unrolled assignments is what the theorem is about: for
+   `for i in 1:2 loop a := a + i*b; b := a - b; end for` from a = b = 1 the sequential result is
+   a = 4, b = 3, the iteration-major unrolling of the generator gives the same, and the
+   statement-major unrolling (seeded change m2) gives b = 1 *)
+Theorem C11_function_order :
+  match tr_assigns good_table order_body with
+  | Ok cb =>
+      val_is (exec (fun _ q => q) [SFor 1 1 2 order_body] order_rm) 1%positive 4 = true /\
+      val_is (exec (fun _ q => q) [SFor 1 1 2 order_body] order_rm) 2%positive 3 = true /\
+      qc_is (ca_eval (fun _ q => q) (apply_assigns (unroll [1; 2]%Z cb) sigma0 1%positive) order_rc) 4 = true /\
+      qc_is (ca_eval (fun _ q => q) (apply_assigns (unroll [1; 2]%Z cb) sigma0 2%positive) order_rc) 3 = true /\
+      qc_is (ca_eval (fun _ q => q) (apply_assigns (unroll_stmt_major [1; 2]%Z cb) sigma0 2%positive) order_rc) 1 = true
+  | Err _ => False
+  end.
+Proof. exact order_matters. Qed.
+Print Assumptions C11_function_order.
+
+(* Array equations (vectors, matrices, slices A[lo:hi, k], A[:, k], A[k, :], v[lo:hi], + - .*,
+   scalar * array, matrix product, transpose): if the generator produces the residual graph c for
+   `l = r` (exitEquation incl. the implicit transpose of a row against a column) and CasADi
+   evaluates it to v, then veccat(v) - column-major - is the list of lhs - rhs of the flat
+   equations in column-major order.  In particular a square matrix equation is never transposed.
+   (Soundness form: that the CasADi evaluation IS defined whenever the shapes are Modelica-legal
+   is checked by the correspondence, not proved.) *)
+Theorem C11_matrix_residual (F : positive -> Qc -> Qc) (decl : positive -> mshape) (T : table)
+        (mm : menv2) (cm : cenv2) (rm : menv) (rc : cenv) (l r : aexpr) (c : caa) (L : list Qc) (v : cmat) :
+  table_ok T = true -> env_rel rm rc -> mat_rel mm cm ->
+  tr_aeq decl T l r = Ok c -> m_ares F decl l r mm rm = Some L -> ca_aeval F c cm rc = Some v ->
+  c_flat v = L.
+Proof. intros HT HE HM. exact (aeq_sound F decl T HT mm cm rm rc HE HM l r c L v). Qed.
+Print Assumptions C11_matrix_residual.
+
+Theorem C11_square_not_transposed :
+  match tr_aeq sq_decl good_table (AVar 1%positive) (AVar 2%positive) with
+  | Ok (CABin ASub (CASymM _ _ _) (CASymM _ _ _)) => True
+  | _ => False
+  end.
+Proof. exact square_not_transposed. Qed.
+Print Assumptions C11_square_not_transposed.
 
 (* non-vacuity: a concrete well-typed expression with or / and / not / relation / if, whose
    Modelica meaning is defined at a point related to a CasADi point *)
